@@ -40,6 +40,8 @@ import (
 //   c14 ws <thr> <client> <path> <hex protobuf buffer>   (client r<j>: raw connection, the
 //        thread's consecutive messages for it are pipelined on one connection)
 //   c14 rest <thr> <client> <METHOD> <json|text|none> <resource> <tail|-> <body>
+//   c14 par <thr> <client> <n> <nonce> <overlap|plain>   one request to n servers at once
+//        (SendProtobufParallelWithDecoder); overlap: a decoder that makes two replies overlap
 //   c14 barrier
 //   c14 procs <n>      GOMAXPROCS of the (sub-)process running the server and the clients
 //   c14 calls
@@ -51,38 +53,111 @@ import (
 type c14env struct {
 	l    *onet.LocalTest
 	srv  *onet.Server
+	srvs []*onet.Server
 	base string
 	ws   map[string]*onet.Client
 	hc   map[string]*http.Client
 	mu   sync.Mutex
 }
 
-func c14start() *c14env {
+func c14start(n int) *c14env {
 	c14Register()
 	log.SetDebugVisible(0)
 	log.OutputToBuf()
-	return c14startServer()
+	return c14startServers(n)
+}
+
+// doPar sends one request to several servers at once
+// (Client.SendProtobufParallelWithDecoder): the reply handed back must be the
+// one of the node handed back. In mode "overlap" the decoder's check of the
+// first reply lasts until a second reply has been decoded (or 300 ms), and the
+// second one's a little longer, which makes two replies overlap whenever the
+// client lets them.
+func (e *c14env) doPar(tk []string) string {
+	n, err1 := strconv.Atoi(tk[4])
+	nonce, err2 := strconv.ParseInt(tk[5], 10, 64)
+	if err1 != nil || err2 != nil || n < 3 || n > len(e.srvs) || (tk[6] != "overlap" && tk[6] != "plain") {
+		return "bad-op"
+	}
+	var nodes []*network.ServerIdentity
+	for _, s := range e.srvs[:n] {
+		nodes = append(nodes, s.ServerIdentity)
+	}
+	var mu sync.Mutex
+	calls := 0
+	second := make(chan struct{})
+	secondDone := make(chan struct{})
+	decoder := func(data []byte, ret interface{}) error {
+		mu.Lock()
+		calls++
+		k := calls
+		err := protobuf.Decode(data, ret)
+		mu.Unlock()
+		if err != nil || tk[6] != "overlap" {
+			return err
+		}
+		switch k {
+		case 1:
+			select {
+			case <-second:
+			case <-time.After(300 * time.Millisecond):
+			}
+		case 2:
+			close(second)
+			time.Sleep(100 * time.Millisecond)
+			close(secondDone)
+		}
+		return nil
+	}
+	ret := &C14WhoReply{}
+	node, err := e.wsClient(tk[3]).SendProtobufParallelWithDecoder(nodes, &C14Who{Nonce: nonce}, ret, nil, decoder)
+	if err != nil || node == nil {
+		return "err"
+	}
+	mu.Lock()
+	got := *ret
+	k := calls
+	mu.Unlock()
+	if k >= 2 && tk[6] == "overlap" {
+		select {
+		case <-secondDone:
+		case <-time.After(time.Second):
+		}
+	}
+	if got.Nonce == nonce && got.Addr == string(node.Address) {
+		return "ok pair"
+	}
+	return fmt.Sprintf("mismatch node=%s reply-of=%s nonce=%d", node.Address, got.Addr, got.Nonce)
 }
 
 // c14startServer starts one TCP server whose websocket/HTTP port answers.
-func c14startServer() *c14env {
+func c14startServer() *c14env { return c14startServers(1) }
+
+// c14startServers starts n TCP servers whose websocket/HTTP ports answer.
+func c14startServers(n int) *c14env {
 	for try := 0; try < 4; try++ {
 		l := onet.NewTCPTest(fix.Suite)
 		l.Check = onet.CheckNone
-		srv := l.GenServers(1)[0]
-		e := &c14env{l: l, srv: srv, base: srv.ServerIdentity.URL, ws: map[string]*onet.Client{}, hc: map[string]*http.Client{}}
+		srvs := l.GenServers(n)
+		e := &c14env{l: l, srv: srvs[0], srvs: srvs, base: srvs[0].ServerIdentity.URL, ws: map[string]*onet.Client{}, hc: map[string]*http.Client{}}
 		// the websocket port is the server's port + 1 and may have been taken meanwhile
-		for i := 0; i < 100; i++ {
-			resp, err := (&http.Client{Timeout: time.Second}).Get(e.base + "/ok")
-			if err == nil {
-				b, _ := ioutil.ReadAll(resp.Body)
-				resp.Body.Close()
-				if string(b) == "ok\n" {
-					return e
+		up := 0
+		for _, srv := range srvs {
+			for i := 0; i < 100; i++ {
+				resp, err := (&http.Client{Timeout: time.Second}).Get(srv.ServerIdentity.URL + "/ok")
+				if err == nil {
+					b, _ := ioutil.ReadAll(resp.Body)
+					resp.Body.Close()
+					if string(b) == "ok\n" {
+						up++
+					}
+					break
 				}
-				break
+				time.Sleep(20 * time.Millisecond)
 			}
-			time.Sleep(20 * time.Millisecond)
+		}
+		if up == n {
+			return e
 		}
 	}
 	return nil
@@ -426,7 +501,16 @@ type c14job struct {
 }
 
 func c14exec(c *h.Ctx, cs *h.Case) {
-	e := c14start()
+	nsrv := 1
+	for _, op := range cs.Ops {
+		tk := strings.Fields(op)
+		if len(tk) == 7 && tk[1] == "par" {
+			if n, err := strconv.Atoi(tk[4]); err == nil && n > nsrv && n <= 8 {
+				nsrv = n
+			}
+		}
+	}
+	e := c14start(nsrv)
 	if e == nil {
 		cs.Impl = make([]string, len(cs.Ops))
 		for i := range cs.Impl {
@@ -457,6 +541,8 @@ func c14exec(c *h.Ctx, cs *h.Case) {
 						k = n
 					case j.tk[1] == "ws":
 						cs.Impl[j.i] = e.doWS(j.tk)
+					case j.tk[1] == "par":
+						cs.Impl[j.i] = e.doPar(j.tk)
 					default:
 						cs.Impl[j.i] = e.doREST(j.tk)
 					}
@@ -469,7 +555,8 @@ func c14exec(c *h.Ctx, cs *h.Case) {
 	for i, op := range cs.Ops {
 		tk := strings.Fields(op)
 		switch {
-		case len(tk) == 6 && tk[0] == "c14" && tk[1] == "ws", len(tk) == 9 && tk[0] == "c14" && tk[1] == "rest":
+		case len(tk) == 6 && tk[0] == "c14" && tk[1] == "ws", len(tk) == 9 && tk[0] == "c14" && tk[1] == "rest",
+			len(tk) == 7 && tk[0] == "c14" && tk[1] == "par":
 			if _, ok := threads[tk[2]]; !ok {
 				order = append(order, tk[2])
 			}
@@ -510,8 +597,7 @@ func c14exec(c *h.Ctx, cs *h.Case) {
 // called tells whether the handler has to be invoked.
 func c14owed(tk []string, kept *[]byte) (kind, want string, called bool) {
 	reply := func(tag string, a int64, s string, b []byte) (string, string, bool) {
-		switch s {
-		case "fail", "panic", "nil":
+		if c14IsBad(s) {
 			return "error", "", true
 		}
 		if s == "slow" && tk[1] == "ws" && strings.HasPrefix(tk[3], "q") && (tag == "Echo" || tag == "Swap") {
@@ -657,6 +743,13 @@ func c14oracle(cs *h.Case) {
 			}
 			continue
 		}
+		if len(tk) == 7 && tk[1] == "par" {
+			classes["par:"+strings.Fields(obs + " -")[0]] = true
+			if obs != "ok pair" {
+				cs.Fail("c14:wrong-reply:parallel", fmt.Sprintf("request %d %q: the reply handed back is not the reply of the node handed back: %s", i, op, obs))
+			}
+			continue
+		}
 		if len(tk) < 6 || (tk[1] != "ws" && tk[1] != "rest") {
 			continue
 		}
@@ -708,7 +801,7 @@ type c14gen struct {
 	val int64
 }
 
-var c14words = []string{"", "a", "42", "hello", "x y", "fail", "panic", "nil", "Fail", "zz9", "onet"}
+var c14words = []string{"", "a", "42", "hello", "x y", "fail", "panic", "nil", "panicerr", "panicint", "panicstruct", "panicf", "Fail", "zz9", "onet"}
 
 func (g *c14gen) str() string {
 	r := g.c.Rng
@@ -733,7 +826,7 @@ func (g *c14gen) str() string {
 func (g *c14gen) okstr() string {
 	for {
 		s := g.str()
-		if s != "fail" && s != "panic" && s != "nil" {
+		if !c14IsBad(s) {
 			return s
 		}
 	}
@@ -812,7 +905,7 @@ func (g *c14gen) wsBuf(kindHint int) (string, string) {
 		}
 		return h.Hex(b), "partial"
 	case k < 13:
-		return h.Hex(valid([]string{"fail", "panic", "nil"}[r.Intn(3)])), "failing"
+		return h.Hex(valid(c14Bad[r.Intn(len(c14Bad))])), "failing"
 	case k < 15: // truncated valid encoding
 		b := valid(g.okstr())
 		return h.Hex(b[:r.Intn(len(b)+1)]), "truncated"
@@ -914,7 +1007,7 @@ func (g *c14gen) restReq(res string) (string, string) {
 		case k < 13:
 			return "{}", "empty-object"
 		case k < 14:
-			return "S=" + h.Hex([]byte([]string{"fail", "panic", "nil"}[r.Intn(3)])) + ";" + item("A"), "failing"
+			return "S=" + h.Hex([]byte(c14Bad[r.Intn(len(c14Bad))])) + ";" + item("A"), "failing"
 		case k < 15:
 			f := []string{"A", "S", "B"}[r.Intn(3)]
 			return item("A") + ";" + f + "=null;" + item("B"), "null"
@@ -1067,6 +1160,26 @@ func c14genCases(c *h.Ctx, yield func(*h.Case)) {
 		emit(cs)
 	}
 
+	{
+		// a handler panicking with every kind of value, on websocket and REST (seed C14r3-B)
+		cs := &h.Case{Class: "corpus:panic-values"}
+		enc := func(a int64, s string) string {
+			b, _ := protobuf.Encode(&C14Echo{A: a, S: s})
+			return h.Hex(b)
+		}
+		for i, s := range c14Bad {
+			cs.Ops = append(cs.Ops, "c14 ws t1 k1 C14Echo "+enc(int64(i), "before"), "c14 ws t1 k1 C14Echo "+enc(int64(i), s),
+				"c14 rest t1 k1 POST json C14Post - S="+hx(s), "c14 rest t1 k1 PUT json C14Put - A=1;S="+hx(s))
+		}
+		emit(cs)
+	}
+	{
+		// one request to several servers at once, two replies overlapping (seed C14r3-A)
+		cs := &h.Case{Class: "corpus:parallel-send"}
+		cs.Ops = append(cs.Ops, "c14 par t1 o1 3 7 overlap", "c14 par t1 k1 5 8 overlap", "c14 par t1 o1 4 9 plain")
+		emit(cs)
+	}
+
 	n := c.Pick(200, 2500)
 	for it := 0; it < n && !c.TooManyFails(); it++ {
 		// sequences on one kept websocket connection
@@ -1180,6 +1293,20 @@ func c14genCases(c *h.Ctx, yield func(*h.Case)) {
 			cs.Ops = append(cs.Ops, fmt.Sprintf("c14 ws t1 %s C14Keep %s", cl, h.Hex(buf)))
 		}
 		emit(cs)
+
+		if it%8 == 0 {
+			// one request sent to several servers at once: the reply handed back is the one of
+			// the node handed back, also when replies overlap; several threads, shared clients
+			cs = &h.Case{Class: "parallel-send"}
+			nthr = 1 + r.Intn(3)
+			for i := 0; i < nthr*(1+r.Intn(3)); i++ {
+				cl := []string{"o0", "k0", fmt.Sprintf("o%d", 1+r.Intn(3))}[r.Intn(3)]
+				mode := []string{"overlap", "overlap", "plain"}[r.Intn(3)]
+				c.Count("par:" + mode)
+				cs.Ops = append(cs.Ops, fmt.Sprintf("c14 par t%d %s %d %d %s", r.Intn(nthr), cl, 3+r.Intn(3), 100+g.int(false)%1000000, mode))
+			}
+			emit(cs)
+		}
 
 		if it%12 == 0 {
 			// a reply that takes longer than the client waits: an error for that request, the
